@@ -143,6 +143,31 @@ func VerifC11Atomic(pair int) {
 		verifrt.Go(func() { lb.RemoveBackend("b0") })
 		verifrt.WaitAll()
 		verifrt.Assert(has("n") && !has("b0") && has("b1"), "concurrent add and remove both take effect")
+	case 4, 5: // list || remove / add: the listing is the backend set before or after the operation
+		for i := 2; i < 4; i++ {
+			lb.strategy.AddBackend(verifBackend(i))
+		}
+		var listed []BackendInfo
+		verifrt.Go(func() { listed = lb.ListBackends() })
+		if pair == 4 {
+			verifrt.Go(func() { lb.RemoveBackend("b1") })
+		} else {
+			verifrt.Go(func() { lb.AddBackend(config.BackendConfig{Name: "n", Address: "http://n:80"}) })
+		}
+		verifrt.WaitAll()
+		count := map[string]int{}
+		for _, in := range listed {
+			count[in.Name]++
+		}
+		for _, n := range []string{"b0", "b2", "b3"} {
+			verifrt.Assert(count[n] == 1, "a listing taken during an admin operation shows every untouched backend exactly once")
+		}
+		if pair == 4 {
+			verifrt.Assert(count["b1"] <= 1 && len(listed) == 3+count["b1"], "a listing taken during a remove is the set before or after it")
+		} else {
+			verifrt.Assert(count["b1"] == 1 && count["n"] <= 1 && len(listed) == 4+count["n"], "a listing taken during an add is the set before or after it")
+		}
+		return
 	case 3: // strategy switch || strategy switch
 		verifrt.Go(func() { lb.SetStrategy("ip_hash") })
 		verifrt.Go(func() { lb.SetStrategy("least_connections") })
